@@ -273,3 +273,28 @@ fn check_key_log2_distance() {
     kani::cover!(hi == Some(255));
     kani::cover!(hi == Some(0));
 }
+
+/// C08: `Distance: Ord` is the numeric order of the 256-bit XOR value, i.e. the lexicographic order of its big-endian bytes
+/// (ClosestIter sorts every batch with it; the query peer maps are keyed by it)
+#[kani::proof]
+#[kani::unwind(34)]
+fn check_distance_order() {
+    let a: [u8; 32] = kani::any();
+    let b: [u8; 32] = kani::any();
+    let da = Distance(U256::from_big_endian(&a));
+    let db = Distance(U256::from_big_endian(&b));
+    // first differing byte decides
+    let mut expected = core::cmp::Ordering::Equal;
+    let mut k = 0;
+    while k < 32 {
+        if expected == core::cmp::Ordering::Equal && a[k] != b[k] {
+            expected = if a[k] < b[k] { core::cmp::Ordering::Less } else { core::cmp::Ordering::Greater };
+        }
+        k += 1;
+    }
+    assert!(da.cmp(&db) == expected, "C08.distance_order: Distance::cmp is the numeric order of the 256-bit value");
+    assert!(da.partial_cmp(&db) == Some(expected), "C08.distance_order: partial_cmp agrees with cmp");
+    assert!((da == db) == (expected == core::cmp::Ordering::Equal), "C08.distance_order: equality is equality of all 256 bits");
+    kani::cover!(expected == core::cmp::Ordering::Less);
+    kani::cover!(expected == core::cmp::Ordering::Greater);
+}
